@@ -1,22 +1,10 @@
-(* Witnesses and examples for Model/RRPlace.v (RockRidge.new).  Every witness below was reproduced on the real
-   library: rr = pycdlib.rockridge.RockRidge(); rr.new(first, name, mode, target, version, child, relocated,
-   parent, bytes_to_skip, curr_dr_len, {}, 1e9); the Examples compare the model with rr.record_dr_entries() /
-   rr.record_ce_entries() / the returned value of those very calls.
-
-   Refuted statements (the general statements they limit are in Proofs/RRPlaceProofs2.v):
-     place_ce_iff_refuted            "CE entry present iff the continuation part is non-empty": on the FIRST pass
-                                     _new_symlink can push SL records into ce_entries although no CE entry exists
-                                     (they are never written).  Smallest target: 13 bytes.
-     place_complete_sl_trunc_refuted consequently a reader gets a truncated target although no_dot_names holds
-                                     (rr.new(False, b'n'*122, 0o120777, b'/'*13, '1.10', ..., 0, 34, {}, _):
-                                      dr_entries.ce_record is None, ce_entries.sl_records has one record;
-                                      natural variant: b'n'*112 and 'a/a/a/a/a/a/a/a/a/a/a/a/a' reads 12 names)
-     first_pass_truncates            the reason: the test `curr_dr_len + RRSLRecord.length(split) > 254` uses the
-                                     true size (33, it fits: 220 + 33 <= 254), the loop's tracker loses 2 bytes per component and keeps 31
-     place_complete_sl_dot_refuted   with a CE entry: a name beginning with '.' cut right after the dot reads back
-                                     with an extra '/'.  Smallest target: b'/.b' (3 bytes) at curr_dr_len 210:
-                                     rr.new(False, b'n', 0o120777, b'/.b', '1.10', ..., 0, 210, {}, _) records
-                                     SL [ROOT, CURRENT]+CONTINUE | SL [NAME b]; symlink_path() = b'/./b' *)
+(* Examples for Model/RRPlace.v (RockRidge.new, rockridge.py after the repair "Rock Ridge symlink components are
+   accounted and recorded by their real length").  The inputs below were the witnesses of the three statements
+   that used to be refuted (place_ce_iff_refuted, place_complete_sl_trunc_refuted, place_complete_sl_dot_refuted);
+   they now read back exactly, as Proofs/RRPlaceProofs2.v proves for every input (place_ce_iff,
+   place_reads_target).  The byte-level Examples compare the model with the real library:
+   rr = pycdlib.rockridge.RockRidge(); rr.new(first, name, mode, target, version, child, relocated, parent,
+   bytes_to_skip, curr_dr_len, {}, 1e9); rr.record_dr_entries() / rr.record_ce_entries() / the returned value. *)
 From Coq Require Import ZArith List Bool Lia.
 From PV.Base Require Import Prim.
 From PV.Model Require Import Codec RREntries RRWalk RRPlace.
@@ -26,48 +14,35 @@ Import ListNotations.
 Local Open Scope Z_scope.
 
 Definition d7 : list Z := [101; 9; 9; 1; 46; 40; 0].
-(* '/' * 13 , name 'n' * 122, plain record of 34 bytes, Rock Ridge 1.10 *)
+(* '/' * 13 , name 'n' * 122, plain record of 34 bytes, Rock Ridge 1.10: before the repair the first pass kept 12
+   components in the record and dropped the 13th (no CE entry); now 197 + 33 + 26 > 254 is seen and a CE entry is
+   planned *)
 Definition w_trunc : place_in :=
   mk_pin V110 false (repeat 110 122%nat) 41471 (Some (repeat 47 13%nat)) false false false 0 34 [d7; d7; d7].
 (* 'a/a/.../a' (13 names), name 'n' * 112 *)
 Definition w_trunc_names : place_in :=
   mk_pin V110 false (repeat 110 112%nat) 41471 (Some (LongNames.join_slash (repeat [97] 13%nat)))
          false false false 0 34 [d7; d7; d7].
-(* '/.b' at curr_dr_len 210 *)
+(* '/.b' at curr_dr_len 210: the name ".b" is cut right after its dot *)
 Definition w_dot : place_in := mk_pin V110 false [110] 41471 (Some [47; 46; 98]) false false false 0 210 [d7; d7; d7].
 
-Lemma zlist_neq a b : zlist_eqb a b = false -> a <> b.
-Proof. intros H E. subst. induction b as [|x b IH]; cbn in H; [discriminate|]. rewrite Z.eqb_refl in H. auto. Qed.
-
-Theorem place_ce_iff_refuted : exists i r, place i = Some r /\ input_ok i r /\
-  ce_record (pl_dr r) = None /\ entries_list (pl_ce r) = [E_SL (mk_sl 0 [mk_comp 0 0 []])] /\
-  ~ (ce_record (pl_dr r) = None <-> entries_list (pl_ce r) = []).
+Example w_trunc_reads_back : exists r, place w_trunc = Some r /\ input_ok w_trunc r /\
+  is_some (ce_record (pl_dr r)) = true /\ entries_list (pl_ce r) <> [] /\ first_fit w_trunc = false /\
+  read_target r = repeat 47 13%nat /\ read_name r = p_name w_trunc.
 Proof.
-  exists w_trunc. eexists. split; [vm_compute; reflexivity|]. split; [repeat split; vm_compute; congruence|].
-  split; [reflexivity|]. split; [reflexivity|]. intros [H _]. specialize (H eq_refl). discriminate H.
+  eexists. split; [vm_compute; reflexivity|]. split; [repeat split; vm_compute; congruence|].
+  split; [reflexivity|]. split; [vm_compute; discriminate|]. repeat split; vm_compute; reflexivity.
 Qed.
-
-Theorem place_complete_sl_trunc_refuted : exists i r t, place i = Some r /\ p_target i = Some t /\
-  LongNames.no_dot_names t = true /\ read_target r = firstn 12 t /\ read_target r <> t.
-Proof.
-  exists w_trunc. eexists. eexists. split; [vm_compute; reflexivity|]. split; [reflexivity|].
-  split; [vm_compute; reflexivity|]. split; [vm_compute; reflexivity|]. apply zlist_neq. vm_compute. reflexivity.
-Qed.
-Lemma w_trunc_names_reads : exists r, place w_trunc_names = Some r /\ ce_record (pl_dr r) = None /\
-  read_target r = LongNames.join_slash (repeat [97] 12%nat).
+Example w_trunc_names_reads_back : exists r, place w_trunc_names = Some r /\
+  is_some (ce_record (pl_dr r)) = true /\ read_target r = LongNames.join_slash (repeat [97] 13%nat).
 Proof. eexists. split; [vm_compute; reflexivity|]. split; vm_compute; reflexivity. Qed.
-
-Theorem first_pass_truncates : exists i l, first_fit i = true /\ sl_in_dr i = Some l /\ l = 31 /\
-  len_sl (LongNames.split_slash (target_of i)) = 33.
-Proof. exists w_trunc, 31. repeat split; vm_compute; reflexivity. Qed.
-
-Theorem place_complete_sl_dot_refuted : exists i r t, place i = Some r /\ input_ok i r /\ p_target i = Some t /\
-  is_some (ce_record (pl_dr r)) = true /\ LongNames.no_dot_names t = false /\
-  read_target r = [47; 46; 47; 98] /\ read_target r <> t /\ read_name r = p_name i.
+Example w_dot_reads_back : exists r, place w_dot = Some r /\ input_ok w_dot r /\
+  is_some (ce_record (pl_dr r)) = true /\ read_target r = [47; 46; 98] /\ read_name r = [110] /\
+  map sl_view (sl_of (visible r)) =
+    [(true, [LongNames.CRoot; LongNames.CName true [46]]); (false, [LongNames.CName false [98]])].
 Proof.
-  exists w_dot. eexists. eexists. split; [vm_compute; reflexivity|]. split; [repeat split; vm_compute; congruence|].
-  split; [reflexivity|]. split; [reflexivity|]. split; [vm_compute; reflexivity|].
-  split; [vm_compute; reflexivity|]. split; [apply zlist_neq; vm_compute; reflexivity|vm_compute; reflexivity].
+  eexists. split; [vm_compute; reflexivity|]. split; [repeat split; vm_compute; congruence|].
+  repeat split; vm_compute; reflexivity.
 Qed.
 
 (* ---- the model against the real library (bytes copied from the calls named in the header) ---- *)
@@ -75,8 +50,8 @@ Example ex_dot :
   let t : place_tuple := (110, false, [110], 41471, [47; 46; 98], (false, false, false), 0, 210, [[101; 9; 9; 1; 
 46; 40; 0]; [101; 9; 9; 1; 46; 40; 0]; [101; 9; 9; 1; 46; 40; 0]]) in
   check_place_case t
-    ([78; 77; 6; 1; 0; 110; 83; 76; 9; 1; 1; 8; 0; 2; 0; 67; 69; 28; 1] ++ repeat 0 16%nat ++ [70; 0; 0; 0; 0; 0; 
-0; 70])
+    ([78; 77; 6; 1; 0; 110; 83; 76; 10; 1; 1; 8; 0; 1; 1; 46; 67; 69; 28; 1] ++ repeat 0 16%nat ++ [70; 0; 0; 0; 0; 
+0; 0; 70])
     ([80; 88; 36; 1; 255; 161; 0; 0; 0; 0; 161; 255; 1; 0; 0; 0; 0; 0; 0; 1] ++ repeat 0 16%nat ++ [83; 76; 8; 1; 
 0; 0; 1; 98; 84; 70; 26; 1; 14; 101; 9; 9; 1; 46; 40; 0; 101; 9; 9; 1; 46; 40; 0; 101; 9; 9; 1; 46; 40; 0]) && 
 check_place_ret t (254) = true.
@@ -116,9 +91,10 @@ Example ex_truncated :
 [[101; 9; 9; 1; 46; 40; 0]; [101; 9; 9; 1; 46; 40; 0]; [101; 9; 9; 1; 46; 40; 0]]) in
   check_place_case t
     ([78; 77; 127; 1; 0] ++ repeat 110 122%nat ++ [80; 88; 36; 1; 255; 161; 0; 0; 0; 0; 161; 255; 1; 0; 0; 0; 0; 0; 
-0; 1] ++ repeat 0 16%nat ++ [83; 76; 31; 1; 1; 8] ++ repeat 0 25%nat ++ [84; 70; 26; 1; 14; 101; 9; 9; 1; 46; 40; 
-0; 101; 9; 9; 1; 46; 40; 0; 101; 9; 9; 1; 46; 40; 0])
-    ([83; 76; 7; 1; 0; 0; 0]) && check_place_ret t (254) = true.
+0; 1] ++ repeat 0 16%nat ++ [83; 76; 29; 1; 1; 8] ++ repeat 0 23%nat ++ [67; 69; 28; 1] ++ repeat 0 16%nat ++ [35; 
+0; 0; 0; 0; 0; 0; 35])
+    ([83; 76; 9; 1; 0; 0; 0; 0; 0; 84; 70; 26; 1; 14; 101; 9; 9; 1; 46; 40; 0; 101; 9; 9; 1; 46; 40; 0; 101; 9; 9; 
+1; 46; 40; 0]) && check_place_ret t (254) = true.
 Proof. vm_compute. reflexivity. Qed.
 
 Example ex_relocated_symlink :
@@ -141,7 +117,5 @@ Example ex_raises :
     ([]) && check_place_ret t (-1) = true.
 Proof. vm_compute. reflexivity. Qed.
 
-Print Assumptions place_ce_iff_refuted.
-Print Assumptions place_complete_sl_trunc_refuted.
-Print Assumptions first_pass_truncates.
-Print Assumptions place_complete_sl_dot_refuted.
+Print Assumptions w_trunc_reads_back.
+Print Assumptions w_dot_reads_back.
